@@ -17,7 +17,7 @@ import (
 
 // stepC is one step of a registration history.
 type stepC struct {
-	Op     string `json:"op"`     // reg | rereg | reg-hdr0 | reg-mismatch | checkin-same | checkin-other | getjob
+	Op     string `json:"op"`     // reg | rereg | reg-hdr0 | reg-mismatch | checkin-same | checkin-other | getjob | exit
 	Agent  int    `json:"agent"`  // index into the history's agent list
 	Other  int    `json:"other"`  // second agent index (checkin-other / reg-mismatch)
 }
@@ -192,6 +192,26 @@ func runC(c *lib.Ctx, cs caseC) (sig, what string) {
 			if !ok {
 				return "checkin:rejected:" + idClass(s.ID), fmt.Sprintf("step %d: check-in of registered agent %s answered %d", si, s.Hex(), resp.Status)
 			}
+		case "exit":
+			// the session dies (final COMMAND_EXIT callback); it stays in the table, and its
+			// id is still taken: a later registration with it must not add a second session
+			if !registered[st.Agent] {
+				continue
+			}
+			req++
+			rig.TaskSimple(r.TS, s.Hex(), req)
+			s.Checkin(h.GinEngine)
+			var p demon.Pkg
+			p.I32(uint32(1 + st.Other%2))
+			resp, _, _ := s.Checkin(h.GinEngine, demon.Callback{Cmd: 92, ReqID: req, Body: p.B})
+			if resp.Panic != nil {
+				return lib.PanicSig(resp.Panic, resp.Stack), fmt.Sprintf("step %d: COMMAND_EXIT callback panics: %v", si, resp.Panic)
+			}
+			for _, a := range r.TS.Agents.Agents {
+				if a.NameID == s.Hex() && !a.Active {
+					c.Observe("C.session-dead-after-exit", 1)
+				}
+			}
 		case "checkin-same", "checkin-other":
 			if !registered[st.Agent] {
 				continue
@@ -246,7 +266,7 @@ func idClass(id uint32) string {
 }
 
 func registerC(c *lib.Ctx) {
-	ops := []string{"reg", "rereg", "reg-hdr0", "reg-mismatch", "checkin-same", "checkin-other", "getjob"}
+	ops := []string{"reg", "rereg", "reg-hdr0", "reg-mismatch", "checkin-same", "checkin-other", "getjob", "exit", "rereg"}
 	n := c.N(160, 8000)
 	for i := 0; i < n; i++ {
 		cs := caseC{Kind: "C", Seed: c.Rng.Int63(), Text: c.Rng.Intn(3)}
